@@ -3207,7 +3207,12 @@ void Analyser::AnalyserImpl::analyseModel(const ModelPtr &model)
             // Swap the LHS and RHS of the equation if its unknown variable is
             // on its RHS.
 
-            if (internalEquation->variableOnRhs(internalEquation->mUnknownVariables.front())) {
+            // Note: the unknown of an ODE is the derivative of its variable, so
+            //       the variable itself on the RHS (e.g., dx/dt = x) is not a
+            //       reason to swap, and conversely for a non-ODE equation.
+
+            if (internalEquation->variableOnRhs(internalEquation->mUnknownVariables.front())
+                && ((internalEquation->mAst->rightChild()->type() == AnalyserEquationAst::Type::DIFF) == (type == AnalyserEquation::Type::ODE))) {
                 internalEquation->mAst->swapLeftAndRightChildren();
             }
 
